@@ -91,6 +91,8 @@ type Config struct {
 	Record          bool          `json:"record"`
 	KeyPoolSize     int           `json:"key_pool"`
 	Hostile         bool          `json:"hostile"`
+	StarveSome      bool          `json:"starve_some"`
+	RetryDelay      time.Duration `json:"retry_delay"`
 
 	ConsumerUnbonding time.Duration `json:"consumer_unbonding"`
 	HandshakeDelayMax int           `json:"handshake_delay_max"`
